@@ -46,11 +46,11 @@ def make(kind, name=None, **kw):
     if kind == 'source':
         return [Source(name, cycle_time=kw.get('cycle', 1))]
     if kind == 'handler':
-        return [PartHandler(name, cycle_time=1, upstream=kw.get('upstream'))]
+        return [PartHandler(name, cycle_time=1, upstream=kw.get('upstream'), value=5)]
     if kind == 'processor':
-        return [PartProcessor(name, cycle_time=1, upstream=kw.get('upstream'))]
+        return [PartProcessor(name, cycle_time=1, upstream=kw.get('upstream'), value=7)]
     if kind == 'buffer':
-        return [Buffer(name, capacity=2, upstream=kw.get('upstream'))]
+        return [Buffer(name, capacity=2, upstream=kw.get('upstream'), value=3)]
     if kind == 'gate':
         return [DecisionGate(name, decider_override=lambda g, p: True, upstream=kw.get('upstream'))]
     if kind == 'batcher':
@@ -58,7 +58,7 @@ def make(kind, name=None, **kw):
     if kind == 'sink':
         return [Sink(name, upstream=kw.get('upstream'))]
     if kind == 'maintainer':
-        return [Maintainer(name, capacity=1)]
+        return [Maintainer(name, capacity=1, value=-11)]
     if kind == 'scheduler':
         return [ActionScheduler([(1, 'a'), (2, 'b')], name)]
     if kind == 'psensor':
@@ -72,7 +72,7 @@ def make(kind, name=None, **kw):
         out.append(OutputPartSensor(proc, [AttributeProbe('quality', None)], sensing_interval=kw.get('n', 0), name=name))
         return out
     if kind == 'cms':
-        return [Cms(None, name)]
+        return [Cms(None, name, value=2)]
     raise ValueError(kind)
 
 
@@ -142,7 +142,10 @@ class LTracer:
                 'now': [_t(s.env.now) for s in self.systems],
                 'assets': [{'kind': self.kind_of(a), 'sys': self.sys_of(a), 'inits': self.inits.get(id(a), 0)}
                            for a in self.assets],
-                'pend': [dict(p) for p in self.pend], 'nuid': self.nuid + 1}
+                'pend': [dict(p) for p in self.pend], 'nuid': self.nuid + 1,
+                # C16: the system's net value against the sum over the assets it returns as registered
+                'net': [int(s.get_net_value_of_assets()) for s in self.systems],
+                'regsum': [int(sum(a.value for a in s.find_assets())) for s in self.systems]}
 
     def log(self, ev):
         self.lines.append({'tid': self.tid, 'k': self.k, 'ev': ev, 'st': self.project()})
@@ -565,7 +568,7 @@ def run_twin(tid, op):
         except Exception as ex:
             s, e = {}, '%s: %s' % (type(ex).__name__, ex)
         res[mode] = {'sum': json.dumps(s, sort_keys=True, default=str), 'error': e}
-    st = {'nsys': 0, 'inited': [], 'now': [], 'assets': [], 'pend': [], 'nuid': 1}
+    st = {'nsys': 0, 'inited': [], 'now': [], 'assets': [], 'pend': [], 'nuid': 1, 'net': [], 'regsum': []}
     return [{'tid': tid, 'k': 0, 'ev': {'op': 'start'}, 'st': st},
             {'tid': tid, 'k': 1, 'ev': {'op': 'twin', 'kind': op['kind'], 't': op['t'], 'h': op['h'],
                                         'late': res['late'], 'twin': res['twin']}, 'st': st}]
